@@ -335,6 +335,15 @@ func (ex *Exec) applyContract(st *State, fn *ssa.Function, fc *contract.Func, ar
 			}
 		}
 	}
+	// a callee that merges rules changes which rule expresses the fixed fact: its ghost
+	// effect is only known through its post-condition
+	if fc.Flags["rulesmerge"] {
+		if _, has := st.Ghost["D"]; has {
+			st.Ghost["D"] = ex.Ctx.Fresh("D_after_"+fn.Name(), "(Array Ref Bool)")
+			st.Assume(smt.Not(smt.Sel(st.Ghost["D"], NilRef)))
+			st.Ghost["HV"] = ex.Ctx.Fresh("HV_after_"+fn.Name(), "Int")
+		}
+	}
 	// havoc assigns
 	for _, loc := range fc.Assigns {
 		ex.havocLoc(st, pre, loc)
